@@ -112,6 +112,18 @@ package sqlite
 //@     ghost pi string = ""
 //@     after call tuple.ToUserPartsFromObjectRelation args x returning a, b, c : parts = x ; pt = a ; pi = b
 //@     before call builtin.append args sl, add : assert len(add) == 1 && typeIs(add[0], "squirrel.Eq") && parts == u && typeIs(as(add[0], "squirrel.Eq")["user_object_type"], "string") && as(as(add[0], "squirrel.Eq")["user_object_type"], "string") == pt && as(as(add[0], "squirrel.Eq")["user_object_id"], "string") == pi && (u.GetRelation() != "" ==> inDom(as(add[0], "squirrel.Eq"), "user_relation") && as(as(add[0], "squirrel.Eq")["user_relation"], "string") == u.GetRelation()) && (u.GetRelation() == "" ==> !inDom(as(add[0], "squirrel.Eq"), "user_relation"))
-//@     before call (squirrel.StatementBuilderType).Select args _ : assert len(whereClause) >= 1 && typeIs(whereClause[0], "squirrel.Eq") && inDom(as(whereClause[0], "squirrel.Eq"), "deleted_at") && as(whereClause[0], "squirrel.Eq")["deleted_at"] == nil
-//@     before call (squirrel.SelectBuilder).Where args _, pred : assert typeIs(pred, "squirrel.And") && as(pred, "squirrel.And") == whereClause
+//@     before call (squirrel.SelectBuilder).Where args _, pred : assert wheres == 0 ==> typeIs(pred, "squirrel.Eq") && as(as(pred, "squirrel.Eq")["store"], "string") == store && typeIs(as(pred, "squirrel.Eq")["store"], "string") && as(as(pred, "squirrel.Eq")["object_type"], "string") == filter.ObjectType && as(as(pred, "squirrel.Eq")["relation"], "string") == filter.Relation
 //@     after call (squirrel.SelectBuilder).Where : wheres = wheres + 1
+
+// ------------------------------------------------------------------ C19: no-panic sweep (thin, safety-only contracts)
+// every index and slice expression of these functions is in range for ALL inputs, with no precondition (generated by
+// bin/sweepgen, kept because every obligation discharges; callees without contract are treated as arbitrary)
+//@ func (*Datastore).selectExistingRowsForWrite(recv, a0, a1, a2, a3, a4) (r0)
+//@   property C19
+//@   option nosafety
+//@   option safety slice,index
+
+//@ func PrepareDSN(a0) (r0, r1)
+//@   property C19
+//@   option nosafety
+//@   option safety slice,index
